@@ -31,7 +31,7 @@ ASSUMPTIONS = [
   "an unparsed last layer must still hold the remainder as bytes in .raw or .next; byte-exact re-serialisation is not demanded here (C14)",
 ]
 EXHAUSTIVE_SCOPE = {
-  "quick": "reference corpus (one frame per protocol/message kind, even and odd payload): each frame itself, every truncation length, and the "
+  "quick": "reference corpus (one frame per protocol/message kind with a 6- and a 7-byte payload, ten of them also with 41 bytes): each frame itself, every truncation length, and the "
            "values {0, 0xff, b^1, b^0x80, b+1} at every byte offset; each of these faults once as is and once followed by a repair of all "
            "checksums the reference dissector locates",
   "thorough": "as quick, plus all 256 values at every byte offset that the reference dissector attributes to a header (not to the innermost payload)",
@@ -242,27 +242,17 @@ def enum_faults(tier):
         yield {"raw": f[:i] + bytes([v]) + f[i + 1:], "src": "corrupt:%s:%d:%s" % (name, i, op)}
 
 
-_HAS_CSUM = {}
-
-
-def _has_csum(name, f):
-  if name not in _HAS_CSUM:
-    _HAS_CSUM[name] = any(c["name"].endswith(".csum") for c in P.dissect(f).checks)
-  return _HAS_CSUM[name]
-
-
 def enum_faults_repaired(tier):
   """the same single faults, each followed by a repair of the checksums (frames that carry one)"""
   for c in enum_faults(tier):
-    kind, name = c["src"].split(":")[:2]
-    if kind == "valid":
+    if c["src"].startswith("valid:"):
       continue
     yield {"raw": c["raw"], "fix": True, "src": "repaired-" + c["src"]}
 
 
 def enum_all_values(tier):
   for name, f in corpus():
-    if not name.endswith("-6"):
+    if not (name.endswith("-6") or name.endswith("-41")):
       continue
     for i in _header_offsets(f):
       for v in range(256):
